@@ -329,7 +329,7 @@ func cmdCheck(args []string) int {
 			"harnesses":                     hstats,
 			"bounds":                        pc.Bounds[*tier],
 			"outside_bounds":                pc.Outside,
-			"queries":                       map[string]int{"feasibility": rr.FeasQ, "assertion": rr.AssertQ, "sat": rr.Solver.Sat, "unsat": rr.Solver.Unsat, "unknown": rr.Solver.Unknown, "error_lines": rr.Solver.Errors},
+			"queries":                       map[string]int{"cache_hits": rr.CacheHits, "feasibility": rr.FeasQ, "assertion": rr.AssertQ, "sat": rr.Solver.Sat, "unsat": rr.Solver.Unsat, "unknown": rr.Solver.Unknown, "error_lines": rr.Solver.Errors},
 			"solver":                        *solver,
 			"solver_s":                      float64(rr.Solver.WallNs) / 1e9,
 			"explore_wall_s":                rr.Wall.Seconds(),
@@ -346,8 +346,8 @@ func cmdCheck(args []string) int {
 	os.MkdirAll(*evDir, 0o755)
 	eb, _ := json.MarshalIndent(ev, "", " ")
 	os.WriteFile(filepath.Join(*evDir, id+".json"), eb, 0o644)
-	fmt.Printf("gosym: %s %s: states=%d transitions=%d validated=%d/%d violations=%d known=%d engine_problem=%v wall=%.1fs (solver %.1fs, %d queries)\n",
-		id, *tier, states, transitions, validated, nSamples, nViol, len(knownHit), engineProblem, time.Since(t0).Seconds(), float64(rr.Solver.WallNs)/1e9, rr.Solver.Queries)
+	fmt.Printf("gosym: %s %s: states=%d transitions=%d validated=%d/%d violations=%d known=%d engine_problem=%v wall=%.1fs (solver %.1fs, %d queries, %d cache hits)\n",
+		id, *tier, states, transitions, validated, nSamples, nViol, len(knownHit), engineProblem, time.Since(t0).Seconds(), float64(rr.Solver.WallNs)/1e9, rr.Solver.Queries, rr.CacheHits)
 	return exit
 }
 
